@@ -678,6 +678,46 @@ def _get_lambda_in_stream(
     return lda, saw_new_line
 
 
+def _code_names_and_constants(code) -> Tuple[List[str], List[str]]:
+    """The names a code object (and the code objects nested in it) refers to and the constants
+    it uses. Names are reported the same way whether they are looked up as globals or as
+    variables of an enclosing function, so code compiled in and out of its context agrees."""
+    names = set(code.co_names) | set(code.co_freevars) | set(code.co_cellvars)
+    names |= set(code.co_varnames)
+    constants = []
+    for c in code.co_consts:
+        if hasattr(c, "co_code"):
+            sub_names, sub_constants = _code_names_and_constants(c)
+            names |= set(sub_names)
+            constants += sub_constants
+        elif c is not None:
+            constants.append(repr(c))
+
+    def plain(n: str) -> str:
+        # Inside a class body `__x` is compiled as `_Class__x`.
+        return n[n.index("__") :] if n.startswith("_") and not n.startswith("__") and "__" in n else n
+
+    return sorted({plain(n) for n in names}), sorted(constants)
+
+
+def _lambda_can_be(lda: ast.Lambda, ast_source: Callable) -> bool:
+    """Could the lambda found in the source be the callable we were given? They must at least
+    refer to the same names and use the same constants."""
+    code = getattr(ast_source, "__code__", None)
+    if code is None:
+        return True
+    try:
+        module_code = compile(
+            ast.fix_missing_locations(ast.Expression(body=copy.deepcopy(lda))), "<lambda>", "eval"
+        )
+    except Exception:
+        return True
+    found = [c for c in module_code.co_consts if hasattr(c, "co_code")]
+    if len(found) != 1:
+        return True
+    return _code_names_and_constants(found[0]) == _code_names_and_constants(code)
+
+
 def _parse_source_for_lambda(
     ast_source: Callable, caller_name: Optional[str] = None
 ) -> Optional[ast.Lambda]:
@@ -787,6 +827,16 @@ def _parse_source_for_lambda(
             )
 
         lda = good_lambdas[0]
+
+        # The lambda we were handed may not be the one the scan attributed to the caller (it was
+        # passed by keyword, through a helper, as one arm of a conditional, ...). Never return a
+        # lambda that cannot be the callable.
+        if not _lambda_can_be(lda, ast_source):
+            raise ValueError(
+                f"Unable to identify the lambda {ast_source} in the source: the lambda found "
+                f"on its line (`{ast.unparse(lda)}`) is a different function. Put it on a line of "
+                "its own."
+            )
 
     return lda
 
